@@ -36,6 +36,8 @@ type c05cell struct {
 	effects [][]int // per effect: privilege numbers all of which are required (empty = ungoverned)
 	name26  bool    // display-name cell: without the privilege the name is simply not adopted (no error)
 	noReply bool    // the request has no reply when it succeeds
+	anyOf   []int   // effect 0 is governed by "at least one of these" (targets whose kind the protocol does not pin down)
+	mayFail bool    // with every governing privilege held the request may still be refused (e.g. a target that cannot be resolved)
 	run     func(x *c05ctx) (*hlref.Tran, []bool)
 }
 
@@ -205,6 +207,16 @@ var c05cells = []c05cell{
 			return []hlref.Field{sfld(hlref.FFileName, "inner.txt"), fld(hlref.FFilePath, p1("dir"))}
 		},
 		func(x *c05ctx) bool { return !exists(x.w.FileRoot, "dir", "inner.txt") }),
+	{name: "delete:dangling-alias", effects: [][]int{nil}, anyOf: []int{hlref.PrivDeleteFile, hlref.PrivDeleteFolder}, mayFail: true, run: func(x *c05ctx) (*hlref.Tran, []bool) {
+		r := x.req.Request(hlref.TranDeleteFile, sfld(hlref.FFileName, "stale alias"))
+		_, err := os.Lstat(filepath.Join(x.w.FileRoot, "stale alias"))
+		return r, []bool{err != nil}
+	}},
+	{name: "move:dangling-alias", effects: [][]int{nil}, anyOf: []int{hlref.PrivMoveFile, hlref.PrivMoveFolder}, mayFail: true, run: func(x *c05ctx) (*hlref.Tran, []bool) {
+		r := x.req.Request(hlref.TranMoveFile, sfld(hlref.FFileName, "stale alias 2"), fld(hlref.FFilePath, p1("dir")), fld(hlref.FFileNewPath, p1("other")))
+		_, err := os.Lstat(filepath.Join(x.w.FileRoot, "dir", "stale alias 2"))
+		return r, []bool{err != nil}
+	}},
 	diskCell("move:file", []int{hlref.PrivMoveFile}, hlref.TranMoveFile,
 		func(x *c05ctx) []hlref.Field {
 			return []hlref.Field{sfld(hlref.FFileName, "f.txt"), fld(hlref.FFileNewPath, p1("other"))}
@@ -446,7 +458,7 @@ func (c *c05cell) allNeeds() []int {
 	for _, e := range c.effects {
 		out = append(out, e...)
 	}
-	return out
+	return append(out, c.anyOf...)
 }
 
 // c05run executes one cell with one requester bitmap in a fresh world and applies the
@@ -489,6 +501,9 @@ func c05run(rt *rapid.T, cell *c05cell, bits hlref.Access, via ...string) bool {
 		}
 		_ = writeFile(filepath.Join(w.FileRoot, "dir", "Drop Box"), "hidden.txt", []byte("hidden"))
 		_ = writeFile(filepath.Join(w.FileRoot, "dir", "deep"), "d.txt", []byte("deep"))
+		// aliases whose target is gone (made, then the target was deleted)
+		_ = os.Symlink(filepath.Join(w.FileRoot, "gone.txt"), filepath.Join(w.FileRoot, "stale alias"))
+		_ = os.Symlink(filepath.Join(w.FileRoot, "gone folder"), filepath.Join(w.FileRoot, "dir", "stale alias 2"))
 		x := &c05ctx{rt: rt, w: w, bits: bits}
 		x.admin = loginAs(rt, w, "10.0.0.1:1", "admin", "adminpw", "admin")
 		x.obs = loginAs(rt, w, "10.0.0.2:1", "obs", "obspw", "obs")
@@ -538,6 +553,19 @@ func c05run(rt *rapid.T, cell *c05cell, bits hlref.Access, via ...string) bool {
 		reply, observed := cell.run(x)
 
 		ctx := fmt.Sprintf("cell %s, requester privileges %v (needs %v)", cell.name, definedSet(bits), cell.effects)
+		if len(cell.anyOf) > 0 {
+			anyHeld := false
+			for _, n := range cell.anyOf {
+				anyHeld = anyHeld || bits.Has(n)
+			}
+			if observed[0] && !anyHeld {
+				rt.Fatalf("%s: the effect happened although the requester holds none of the privileges %v", ctx, cell.anyOf)
+			}
+			if anyHeld {
+				return // which of them suffices, and whether the target can be resolved at all, is not pinned down
+			}
+			holdsAll = false
+		}
 		// (1) an effect is observed only if its privileges are held
 		for i, obsd := range observed {
 			held := true
